@@ -761,7 +761,15 @@ func (w *World) checkNoRepeat() {
 
 func (w *World) checkStepExpect(path string, st *Step, err error) {
 	if st.MustSucceed && err != nil {
-		w.violate("unexpected-error", "step %s (%s %s) failed: %v", path, st.Op, st.ID+st.Of, err)
+		class := "unexpected-error"
+		if st.Op == "scan" && strings.Contains(err.Error(), "cannot resume reading") {
+			// The scan itself says why it gave up: the shard it had partly
+			// delivered was lost and its recomputed output is not the one it was
+			// reading. A class of its own, so that the known finding about it
+			// covers nothing else.
+			class = "scan-not-resumable"
+		}
+		w.violate(class, "step %s (%s %s) failed: %v", path, st.Op, st.ID+st.Of, err)
 	}
 	if st.MustFail && err == nil && len(w.c.UFaults) > 0 && w.userFaultsFired() == 0 {
 		// The planned user fault never fired: the case is vacuous, not a violation.
